@@ -162,7 +162,9 @@ def run(res, tier, seed):
                 offset = [o + math.ceil(6 - low) for o in offset]
             size = int(max(100.0, ext) * sc + max(offset) + 40)
             arr = rng.integers(1, 200, size=(size, size)).astype(float)
-            check_case(res, fr, arr, mode, layers, integrate, normalize, rescale, offset, bool(rng.integers(0, 2)), exprs, label, spec)
+            # an interface listed twice is part of the quantifier: always with 'average' normalisation, at random otherwise
+            repeat = True if normalize == "average" else bool(rng.integers(0, 2))
+            check_case(res, fr, arr, mode, layers, integrate, normalize, rescale, offset, repeat, exprs, label, spec)
     bools, outs = C.coq_eval_bools("C17", IMPORTS, [e for e, _ in exprs], chunk=10)
     for (e, rp), b in zip(exprs, bools):
         res.traces += 1
